@@ -286,7 +286,7 @@ func genLigFont(r *vlib.Rand) *fontSpec {
 	nsets := r.Range(1, 2) // first glyphs with a ligature set
 	var rows [][]ligSpec
 	var cov []covEntry
-	firsts := sortedSubset(r, allGids(nb+1)[1:], nsets)
+	firsts := sortedSubset(r, allGids(nb + 1)[1:], nsets)
 	nextOut := 1 + nb + nu
 	for si, fg := range firsts {
 		k := r.Range(2, 4)
